@@ -6,7 +6,9 @@ spec/Util/McaParam.tla       the box of cases (which of override / --mca (x0..2)
                              order (Predicted)
 spec/Util/McaParamTrace.tla  validates the values and sources reported by the real mca_param.c
 
-1. TLC evaluates the whole box (792 cases): Predicted is always an allowed source of the winning level.
+1. TLC evaluates the whole box (1584 cases: the 792 source combinations, each with the parameter registered once or
+   registered again under the same name; + the pair box: two parameters whose names are in prefix relation with every
+   sequence of <= 4 --mca options naming one or the other): Predicted is always an allowed source of the winning level.
 2. every case gets its own parameter name verif_c<id> (synonym verif_s<id>) and distinct values per source; ONE process
    per entry path evaluates all cases: `api` = parsec_mca_param_init + the command-line path of parsec_init called
    directly, `init` = MPI_Init + the real parsec_init(argc, argv) - with the environment, $HOME/.parsec/mca-params.conf
@@ -23,17 +25,21 @@ META = {
     "level": "model_checking",
     "text": "TLC evaluates McaParam.tla over the complete finite box of source combinations (override, --mca given 0-2 "
             "times, --mca on a synonym, environment variable of the name and of a synonym, parameter-file entry for the "
-            "name and for a synonym in both orders; int, size_t and string parameters) and proves the transcribed lookup "
+            "name and for a synonym in both orders; int, size_t and string parameters; the parameter registered once or "
+            "re-registered under the same name before and after the override; and pairs of parameters whose names are in "
+            "prefix relation with every sequence of <= 4 --mca options naming one or the other) and proves the transcribed lookup "
             "order stays inside the documented precedence; every case is then evaluated on the real mca_param.c - through "
             "the command-line API and through parsec_init - and TLC validates each reported value and source (before and "
-            "after the override) against the property: winning level, a source of that level, comma-joined repeated --mca.",
-    "note": "Exhaustive over the box (792 cases x 2 entry paths). Between sources of the same level (--mca vs environment, "
+            "after the override, after each registration) against the property: winning level, a source of that level, "
+            "comma-joined repeated --mca of exactly that parameter name.",
+    "note": "Exhaustive over the box (1584 cases + 186 name-prefix pairs, x 2 entry paths). Between sources of the same level (--mca vs environment, "
             "name vs synonym, order of file entries) the property leaves the choice open; the code's choice is compared "
             "with the transcription and only counted as a divergence. Parameter file through $HOME; system-wide file, "
             "read-only/deprecated parameters and '~/' expansion are not exercised.",
     "technique": "TLA+ oracle evaluated by TLC over the finite case box + execution of every case on the real code + trace validation (TLC)",
 }
 
+MAX_ORDER = 4
 BASE = {"dflt": 1, "fileP": 2, "fileS": 3, "envP": 4, "envS": 5, "cmdP1": 6, "cmdP2": 7, "cmdS": 8, "ovr": 9}
 
 
@@ -43,15 +49,32 @@ def value(kind, tag, cid):
     return str(BASE[tag] * 100000 + cid)
 
 
+def pair_value(kind, i, cid):
+    return "po%d_%d" % (i, cid) if kind == "string" else str((20 + i) * 100000 + cid)
+
+
 def prepare(cases):
     """-> (case lines, env, file text, argv, per-case vals)"""
     lines, env, ftxt, argv, vals = [], {}, [], [], {}
     for cid, c in cases:
         k = c["type"]
+        if "order" in c:          # a pair of parameters: A = verif_q<cid>, B = verif_q<cid>_x
+            names = {"A": "verif_q%d" % cid, "B": "verif_q%d_x" % cid}
+            v = {"cmd": [pair_value(k, i + 1, cid) for i in range(len(c["order"]))],
+                 "dflt": {"A": pair_value(k, 11, cid), "B": pair_value(k, 12, cid)},
+                 "file": {"A": "", "B": pair_value(k, 13, cid) if c["fileB"] else ""}}
+            vals[cid] = v
+            lines.append("P %d %s %s %s" % (cid, k, v["dflt"]["A"], v["dflt"]["B"]))
+            if c["fileB"]:
+                ftxt.append("%s = %s" % (names["B"], v["file"]["B"]))
+            for w, x in zip(c["order"], v["cmd"]):
+                argv += ["--mca", names[w], x]
+            continue
         v = {t: value(k, t, cid) for t in ("dflt", "fileP", "fileS", "envP", "envS", "cmdS", "ovr")}
         v["cmdP"] = [value(k, "cmdP%d" % (i + 1), cid) for i in range(c["cmdP"])]
         vals[cid] = v
-        lines.append("%d %s %s %d %s" % (cid, k, v["dflt"], 1 if c["syn"] else 0, v["ovr"] if c["ovr"] else "-"))
+        lines.append("%d %s %s %d %s %d" % (cid, k, v["dflt"], 1 if c["syn"] else 0, v["ovr"] if c["ovr"] else "-",
+                                            1 if c.get("rereg") else 0))
         if c["envP"]:
             env["PARSEC_MCA_verif_c%d" % cid] = v["envP"]
         if c["envS"]:
@@ -87,7 +110,7 @@ def evaluate(ctx, exe, via, cases, tag):
     got = {}
     if os.path.exists(out):
         for ev in tracecheck.read_ndjson(out):
-            if ev.get("e") == "case":
+            if ev.get("e") in ("case", "pair"):
                 got[ev["id"]] = ev
     events = []
     for cid, c in cases:
@@ -96,28 +119,34 @@ def evaluate(ctx, exe, via, cases, tag):
             events.append({"e": "Crash", "id": cid, "via": via, "rc": str(rc), "stderr": se[-300:]})
             continue
         ev = dict(ev)
-        ev.update({"via": via, "c": c, "vals": vals[cid]})
+        if "order" in c:
+            ev.update({"via": via, "p": c})
+            ev.update(vals[cid])
+        else:
+            ev.update({"via": via, "c": c, "vals": vals[cid]})
         events.append(ev)
     return events
 
 
 def trace_cfg(d, level):
-    return mcgen.write_mc(d, "tr_" + level, "McaParamTrace", {"Types": {"int", "sizet", "string"}, "Level_": level},
+    return mcgen.write_mc(d, "tr_" + level, "McaParamTrace", {"Types": {"int", "sizet", "string"}, "MaxOrder": MAX_ORDER, "Level_": level},
                           spec="TSpec", invariants=("AcceptExit",))
 
 
 def run(ctx):
     d = ctx.stage("Util")
     exe = ctx.harness("mca_eval", ["harness/mca/mca_eval.c"])
-    mod, cfg = mcgen.write_mc(d, "box", "McaParam", {"Types": {"int", "sizet", "string"}},
-                              invariants=("TypeOK", "PredictedAllowed", "Precedence", "Emit"))
+    mod, cfg = mcgen.write_mc(d, "box", "McaParam", {"Types": {"int", "sizet", "string"}, "MaxOrder": MAX_ORDER},
+                              invariants=("TypeOK", "PredictedAllowed", "Precedence", "PairIndependent", "Emit"))
     r = ctx.tlc_check(d, mod, cfg, must_cover=("Resolve",), workers=2, timeout=900)
     box = [c for c in (tlc._parse_tla_string_list(l) for l in r.printed) if c]
     box.sort(key=lambda c: json.dumps(c, sort_keys=True))
-    if len(box) < 700:
-        raise tlc.TLCError("the case box was not enumerated (%d cases)" % len(box))
+    npairs = sum(1 for c in box if "order" in c)
+    if len(box) - npairs < 1500 or npairs < 100:
+        raise tlc.TLCError("the case box was not enumerated (%d cases, %d pairs)" % (len(box) - npairs, npairs))
     ctx.exhaustive = True
-    ctx.extra["cases"] = len(box)
+    ctx.extra["cases"] = len(box) - npairs
+    ctx.extra["prefix_name_pairs"] = npairs
     cases = list(enumerate(box, start=1))
     events = []
     for via in ("api", "init"):
@@ -125,15 +154,25 @@ def run(ctx):
     ctx.evaluations = len(events)
     ctx.sample(next(e for e in events if e.get("c", {}).get("cmdP") == 2 and e["c"]["type"] == "string" and not e["c"]["ovr"]))
     ctx.sample(next(e for e in events if e.get("c", {}).get("fileS") and not e["c"]["envP"] and e.get("via") == "init"))
+    ctx.sample(next(e for e in events if e.get("p", {}).get("order") == ["A", "B", "A"] and e["p"]["type"] == "string"))
     # each case is an execution of its own (a rejected case must not hide the others)
     executions = [[e] for e in events]
     tmod, tcfg = trace_cfg(d, "prop")
     fails = ctx.validate(d, tmod, tcfg, executions, batch=100000, timeout=900, max_failures=6)
     for f in fails:
         ev = f.execution[0]
+        if ev.get("e") == "pair":
+            ctx.violation("parameters with names in prefix relation %s (via %s), --mca values %s: resolved to %s; each one must "
+                          "resolve from the options naming exactly it" % (json.dumps(ev.get("p")), ev.get("via"),
+                                                                         json.dumps(ev.get("cmd")), json.dumps(ev.get("res"))),
+                          {"event": ev, "detail": f.describe()})
+            continue
         what = ("MCA parameter case %s (via %s) resolved to value %r from %r (before override: %r from %r): not an allowed "
                 "source of the winning level" % (json.dumps(ev.get("c")), ev.get("via"), ev.get("val"), ev.get("src"),
                                                  ev.get("val0"), ev.get("src0")))
+        if ev.get("c", {}).get("rereg"):
+            what += "; registered again: %r / %r from %r, and after the override %r from %r" % (
+                ev.get("curr"), ev.get("valr"), ev.get("srcr"), ev.get("val2"), ev.get("src2"))
         ctx.violation(what, {"event": ev, "detail": f.describe()})
     tmod, tcfg = trace_cfg(d, "code")
     cf = ctx.validate(d, tmod, tcfg, executions, batch=100000, timeout=900, max_failures=1, confirm=False)
@@ -141,6 +180,7 @@ def run(ctx):
     for f in cf:
         ctx.divergences += 1
         ctx.sample({"divergence": f.execution[0]}, limit=6)
+    ctx.assume("a second registration of a parameter uses the same type and default as the first one")
     ctx.assume("every case uses its own parameter and synonym names; all sources are in place before the parameter is "
                "registered, as for the runtime's own parameters")
     ctx.assume("between sources of one level (--mca vs environment variable, name vs synonym, order of file entries) any "
@@ -151,7 +191,7 @@ def replay(ctx, obj):
     d = ctx.stage("Util")
     exe = ctx.harness("mca_eval", ["harness/mca/mca_eval.c"])
     ev = obj["event"]
-    events = evaluate(ctx, exe, ev.get("via", "api"), [(ev["id"], ev["c"])], "replay")
+    events = evaluate(ctx, exe, ev.get("via", "api"), [(ev["id"], ev["c"] if "c" in ev else ev["p"])], "replay")
     tmod, tcfg = trace_cfg(d, "prop")
     for f in ctx.validate(d, tmod, tcfg, [[e] for e in events]):
         ctx.violation("case still rejected on the current tree: %s" % json.dumps(f.execution[0])[:800], {"event": f.execution[0]})
